@@ -37,6 +37,8 @@ def kinds(k):
                        nontrivial="static_nontrivial"),
         "join": dict(imports=IMPORTS, type="join_case", mismatch="join_mismatches",
                      nontrivial="join_nontrivial"),
+        "table": dict(imports="From Coq Require Import NArith.\nFrom SS Require Import Base M_Bytecode M_ExcTable.",
+                      type="table_case", mismatch="table_mismatches", nontrivial="table_nontrivial"),
     }
 
 
@@ -211,6 +213,8 @@ def make_descs(tier, seed, which):
         yield dict(d, _kind="cert", which=which)
         yield dict(d, _kind="static", which=which)
         yield dict(d, _kind="join", which=which)
+        if which == "susp":
+            yield dict(d, _kind="table", which=which)
 
 
 _CACHE = {}
@@ -270,6 +274,13 @@ def run_case(desc):
 
     co, text = load_code(desc)
     obs = {"what": text if len(text) < 1500 else text[:1500]}
+    if desc["_kind"] == "table":
+        # stackscope's own parser on the raw table (byte offsets -> code units)
+        obs["bytes"] = list(co.co_exceptiontable)
+        obs["parsed"] = [[s // 2, e // 2, t // 2, d, bool(l)] for (s, e, t, d, l) in ll._parse_exception_table(co)]
+        ref = [[e.start // 2, e.end // 2 - 1, e.target // 2, e.depth, bool(e.lasti)] for e in dis._parse_exception_table(co)]
+        obs["agrees_with_dis"] = ref == obs["parsed"]
+        return obs
     try:
         units, table = W.abstract_code(co)
         cert = W.certificate(units, table)
@@ -415,6 +426,9 @@ def join_coq(units, table, obs):
 
 
 def coq_case(desc, obs):
+    if desc["_kind"] == "table":
+        return "(%s,\n %s)" % (clist(["%d%%N" % b for b in obs["bytes"]]),
+                              W.table_coq([tuple(x) for x in obs["parsed"]]))
     if "machine_error" in obs:
         return None
     co, _ = load_code(desc)
@@ -438,6 +452,8 @@ def coq_case(desc, obs):
 
 
 def direct_oracle(desc, obs):
+    if desc["_kind"] == "table":
+        return None if obs["agrees_with_dis"] else "_parse_exception_table disagrees with CPython's own dis._parse_exception_table"
     if "machine_error" in obs:
         return ("the with-machine cannot explain this code object (no certificate): %s -- either the "
                 "CPython model is incomplete for it or the compiler broke an assumption" % obs["machine_error"])
